@@ -289,7 +289,7 @@ func runMisc(c *fw.Ctx) {
 		}
 		b.flush(cs)
 	})
-	c.Cases("misc.sweep", c.N(1500, 40000), func(cs *fw.Case) {
+	c.Cases("misc.sweep", c.N(1500, 20000), func(cs *fw.Case) {
 		b := &rec{}
 		miscSweep(b, cs.R)
 		b.flush(cs)
